@@ -2,6 +2,8 @@
 //verif:replace@C08c (*github.com/mimecast/dtail/internal/user/server.User).HasFilePermission = c08cPerm
 //verif:replace@C08c (*github.com/mimecast/dtail/internal/server/handlers.readCommand).read = c08bRead
 //verif:replace@C08c path/filepath.Glob = c08cGlob
+//verif:replace@C08d (*github.com/mimecast/dtail/internal/server/handlers.readCommand).read = c08bRead
+//verif:replace@C08d path/filepath.Glob = c08dGlob
 
 package handlers
 
@@ -27,6 +29,16 @@ func c08cPerm(u *user.User, filePath, permissionType string) bool {
 // the glob matches one allowed and one denied file
 func c08cGlob(pattern string) ([]string, error) {
 	return []string{"/var/log/public/a.log", "/var/log/secret/a.log"}, nil
+}
+
+// for C08d (serverless connector): the glob is the path itself; what was opened is exported
+func c08dGlob(pattern string) ([]string, error) { return []string{pattern}, nil }
+
+// VerifC08Reads returns (and forgets) the files opened for reading so far.
+func VerifC08Reads() []string {
+	r := c08bReads
+	c08bReads = nil
+	return r
 }
 
 // VerifC08cSession: a read command as a client can send it — cat, grep or tail
